@@ -127,6 +127,9 @@ struct Ctx<'a> {
     history: &'a History,
     log: &'a RefCell<Run>,
     tree_root: &'a Path,
+    /// false: the outermost layer of the stack is consumed directly (its `Iterator::next` drives
+    /// the walk), no terminal logging filter above it
+    terminal: bool,
 }
 
 fn tree_rel(ctx: &Ctx<'_>, p: &Path) -> String {
@@ -139,6 +142,9 @@ where
     R: 'static + Entry + From<T>,
     I: FileIterator<Entry = T, Residue = R>,
 {
+    if !ctx.terminal {
+        return consume(it, ctx);
+    }
     // terminal pass-through filter: logs everything fed
     let it = it.filter_entry(|e: &dyn Entry| {
         let t = tree_rel(ctx, e.path());
@@ -147,6 +153,14 @@ where
         log.reported_rel.push((t, e.root_relative_paths().1.to_string_lossy().to_string()));
         None
     });
+    consume(it, ctx)
+}
+
+fn consume<I, T>(it: I, ctx: &Ctx<'_>) -> Result<(), String>
+where
+    T: 'static + Entry,
+    I: Iterator<Item = Result<T, wax::walk::WalkError>>,
+{
     let mut n = 0;
     for item in it {
         n += 1;
@@ -252,9 +266,45 @@ pub fn execute_with(
     history: &History,
     link: wax::walk::LinkBehavior,
 ) -> Result<Run, String> {
+    execute_mode(place, base, layers, history, link, true)
+}
+
+/// The same stack consumed directly: the outermost layer's own `Iterator::next` drives the walk
+/// (with the terminal logging filter every layer is driven through `feed` instead). `fed` and
+/// `reported_rel` stay empty.
+pub fn execute_bare(
+    place: &Place,
+    base: &BaseWalk,
+    layers: &[Layer],
+    history: &History,
+    link: wax::walk::LinkBehavior,
+) -> Result<Run, String> {
+    execute_mode(place, base, layers, history, link, false)
+}
+
+/// What the directly consumed stack does differently from the logged one, if anything: a
+/// pass-through filter on top of a stack changes neither the items nor what any layer observes.
+pub fn bare_difference(logged: &Run, bare: &Run) -> Option<String> {
+    if logged.sequence != bare.sequence {
+        return Some(format!("items {:?} when consumed directly, {:?} beneath a pass-through filter", bare.sequence.iter().map(|i| (i.0, i.1.as_str())).collect::<Vec<_>>(), logged.sequence.iter().map(|i| (i.0, i.1.as_str())).collect::<Vec<_>>()));
+    }
+    if logged.calls != bare.calls {
+        return Some(format!("filters observe {:?} when the stack is consumed directly, {:?} beneath a pass-through filter", bare.calls, logged.calls));
+    }
+    None
+}
+
+fn execute_mode(
+    place: &Place,
+    base: &BaseWalk,
+    layers: &[Layer],
+    history: &History,
+    link: wax::walk::LinkBehavior,
+    terminal: bool,
+) -> Result<Run, String> {
     assert!(layers.len() <= MAX_STACK);
     let log = RefCell::new(Run::default());
-    let ctx = Ctx { layers, history, log: &log, tree_root: &place.abs };
+    let ctx = Ctx { layers, history, log: &log, tree_root: &place.abs, terminal };
     let r = guard(|| match base {
         BaseWalk::Path => level3(place.abs.as_path().walk_with_behavior(link), &ctx, 0),
         BaseWalk::Glob(g) => {
@@ -279,7 +329,7 @@ pub fn execute_rooted(place: &Place, pattern: &str, link: wax::walk::LinkBehavio
     let text = format!("{}/{}", wax::escape(abs), pattern);
     let log = RefCell::new(Run::default());
     let history = History::new();
-    let ctx = Ctx { layers: &[], history: &history, log: &log, tree_root: &place.abs };
+    let ctx = Ctx { layers: &[], history: &history, log: &log, tree_root: &place.abs, terminal: true };
     let r = guard(|| {
         let glob = Glob::new(&text).map_err(|e| format!("{}", e))?;
         // never walk outside the scratch area (a rooted glob with a variant first component
@@ -303,7 +353,16 @@ pub fn execute_rooted(place: &Place, pattern: &str, link: wax::walk::LinkBehavio
 /// starts with the world's absolute path. None if the invariant prefix does not name a real,
 /// reachable directory of the world.
 pub fn glob_feed_expectation(world: &World, abs: &Path, glob: &Glob<'_>, rooted: bool, follow: bool) -> Option<Vec<String>> {
+    glob_feed_expectation_justified(world, abs, glob, rooted, follow).map(|(fed, _)| fed)
+}
+
+/// As above, plus the directories that the component programs cut although the glob itself (its
+/// complete program, all canonical paths beneath the directory) CAN match something beneath them:
+/// "a directory is discarded as a tree because a glob's component cannot match it" is then false.
+pub fn glob_feed_expectation_justified(world: &World, abs: &Path, glob: &Glob<'_>, rooted: bool, follow: bool) -> Option<(Vec<String>, Vec<String>)> {
     use std::path::Component;
+    let complete = Dfa::new_search(glob.verif_program_text()).ok();
+    let mut unjustified: Vec<String> = vec![];
     let pruner = crate::props_links::Pruner::of(glob)?;
     let prefix = glob.clone().partition().0;
     let rel_prefix: PathBuf = if rooted { prefix.strip_prefix(abs).ok()?.to_path_buf() } else { prefix };
@@ -341,12 +400,16 @@ pub fn glob_feed_expectation(world: &World, abs: &Path, glob: &Glob<'_>, rooted:
                 let mut all = lead.clone();
                 all.extend(full.iter().cloned());
                 if pruner.mismatch(&all) {
+                    let candidate = if rooted { format!("/{}", all.join("/")) } else { all.join("/") };
+                    if complete.as_ref().map_or(false, |d| d.accepts_something_beneath(&candidate)) {
+                        unjustified.push(full.join("/"));
+                    }
                     cut.push(full);
                 }
             }
         }
     }
-    Some(out)
+    Some((out, unjustified))
 }
 
 // ---------------------------------------------------------------------------------------------
@@ -833,9 +896,9 @@ pub fn replay_rootedfeed(case: &Value) -> bool {
         println!("walk fails");
         return true;
     };
-    let exp = Glob::new(&text).ok().and_then(|glob| glob_feed_expectation(&world, &place.abs, &glob, true, false));
-    println!("Glob(\"<T>/{}\").walk in {}: feeds {:?}; pruned traversal {:?}", pat, world.describe(), run.fed, exp);
-    exp.map_or(false, |e| e != run.fed)
+    let exp = Glob::new(&text).ok().and_then(|glob| glob_feed_expectation_justified(&world, &place.abs, &glob, true, false));
+    println!("Glob(\"<T>/{}\").walk in {}: feeds {:?}; pruned traversal and unjustified cuts {:?}", pat, world.describe(), run.fed, exp);
+    exp.map_or(false, |(e, u)| e != run.fed || !u.is_empty())
 }
 
 pub fn c13_c16(tier: Tier, which: &'static str) -> i32 {
@@ -856,6 +919,46 @@ pub fn c13_c16(tier: Tier, which: &'static str) -> i32 {
         }
     }
     let cache = &cache;
+    // C13, first clause, on its own (no stack above the walk): every small glob of the file-system
+    // alphabet, and globs whose components mix a group that crosses a component boundary with
+    // other tokens, walked in every world; the feed must be the traversal pruned by the component
+    // programs, and every directory they cut must be one beneath which the glob cannot match
+    if which == "C13" {
+        let mut globs = crate::props_fs::fs_globs(tier.pick(2, 3));
+        for g in [".{b,a/b}/*", "{b,a/b}*/*", "?{a,b/a}/*", "<a/:1,2>b/*", "*{a/,b}a", "{a,b/a}{a,b}/*", "a{/b,b}/*", "{a/b,b}/a", "[!b]{b,/b}/*", "a<b/a:0,1>/*", "{a,.a}/{b,a/b}"] {
+            if Glob::new(g).is_ok() {
+                globs.push(g.to_string());
+            }
+        }
+        rep.add("feed_only_globs", globs.len() as u64);
+        let worlds = fsworld::worlds(tier.pick(3, 4), &NAMES, 3);
+        worlds.par_iter().for_each(|world| {
+            let mut c = Counters::new();
+            let place = fswalk::place(&scratch, world);
+            for g in &globs {
+                let base = BaseWalk::Glob(g.clone());
+                let Ok(run) = execute(&place, &base, &[], &History::new()) else { continue };
+                bump(&mut c, "walks", 1);
+                let Some((exp, unjustified)) = Glob::new(g).ok().and_then(|glob| glob_feed_expectation_justified(world, &place.abs, &glob, false, false)) else { continue };
+                bump(&mut c, "feed_only_checked", 1);
+                if run.fed != exp || !unjustified.is_empty() {
+                    rep.alarm(Alarm {
+                        class: None,
+                        key: format!("feedonly {} {}", world.describe(), g),
+                        msg: if unjustified.is_empty() {
+                            format!("{} in {}: the walk feeds {:?} downstream, but the traversal pruned by the glob's component programs is {:?}", base.describe(), world.describe(), run.fed, exp)
+                        }
+                        else {
+                            format!("{} in {}: the walker's component programs discard {:?} as a tree although the glob can match beneath it (fed downstream: {:?})", base.describe(), world.describe(), unjustified, run.fed)
+                        },
+                        case: case_json(world, &base, &[], &History::new()),
+                    });
+                }
+            }
+            drop(place);
+            rep.merge(&c);
+        });
+    }
     for (pi, plan) in plans.iter().enumerate() {
         let plan_started = std::time::Instant::now();
         let walks_before = rep.get("walks");
@@ -875,8 +978,19 @@ pub fn c13_c16(tier: Tier, which: &'static str) -> i32 {
                 // reference traversal pruned by the glob's own component programs
                 if which == "C13" {
                     if let BaseWalk::Glob(g) = base {
-                        if let Some(exp) = Glob::new(g).ok().and_then(|glob| glob_feed_expectation(world, &place.abs, &glob, false, plan.follow)) {
+                        if let Some((exp, unjustified)) = Glob::new(g).ok().and_then(|glob| glob_feed_expectation_justified(world, &place.abs, &glob, false, plan.follow)) {
                             bump(&mut c, "base_feeds_checked", 1);
+                            if !unjustified.is_empty() {
+                                rep.alarm(Alarm {
+                                    class: None,
+                                    key: format!("unjustified {} {:?} {}", world.describe(), base, plan.follow),
+                                    msg: format!(
+                                        "{} in {}: the walker's component programs discard {:?} as a tree although the glob can match beneath it (nothing beneath is fed downstream)",
+                                        base.describe(), world.describe(), unjustified
+                                    ),
+                                    case: with_follow(case_json(world, base, &[], &History::new()), plan.follow),
+                                });
+                            }
                             if base_run.fed != exp {
                                 rep.alarm(Alarm {
                                     class: None,
@@ -952,6 +1066,26 @@ pub fn c13_c16(tier: Tier, which: &'static str) -> i32 {
                                     case: with_follow(case_json(world, base, perm, h), plan.follow),
                                 });
                             }
+                            // the same stack consumed directly (outermost layer driven by `next`)
+                            if let Ok(bare) = execute_bare(&place, base, perm, h, link) {
+                                bump(&mut c, "walks", 1);
+                                bump(&mut c, "stacks_consumed_directly", 1);
+                                if let Some(diff) = bare_difference(&run, &bare) {
+                                    rep.alarm(Alarm {
+                                        class: None,
+                                        key: format!("bare {} {} {:?} {:?} {:?}", label, world.describe(), base, perm, h),
+                                        msg: format!(
+                                            "{} over {} in {} with history [{}]: {}",
+                                            perm.iter().map(|l| l.describe()).collect::<Vec<_>>().join("."),
+                                            base.describe(),
+                                            world.describe(),
+                                            history_text(h),
+                                            diff
+                                        ),
+                                        case: with_follow(case_json(world, base, perm, h), plan.follow),
+                                    });
+                                }
+                            }
                             yields.push((perm.clone(), run.yielded.clone(), j.residue_mirror && !(j.problems_c13.is_empty() && j.problems_c16.is_empty())));
                         }
                         // order independence (C16)
@@ -1005,8 +1139,16 @@ pub fn c13_c16(tier: Tier, which: &'static str) -> i32 {
                 let link = wax::walk::LinkBehavior::ReadFile;
                 let Ok((run, text)) = execute_rooted(&place, pat, link) else { continue };
                 bump(&mut c, "walks", 1);
-                let Some(exp) = Glob::new(&text).ok().and_then(|glob| glob_feed_expectation(world, &place.abs, &glob, true, false)) else { continue };
+                let Some((exp, unjustified)) = Glob::new(&text).ok().and_then(|glob| glob_feed_expectation_justified(world, &place.abs, &glob, true, false)) else { continue };
                 bump(&mut c, "rooted_base_feeds_checked", 1);
+                if !unjustified.is_empty() {
+                    rep.alarm(Alarm {
+                        class: None,
+                        key: format!("rooted unjustified {} {}", world.describe(), pat),
+                        msg: format!("Glob(\"<T>/{}\").walk in {}: the walker's component programs discard {:?} as a tree although the glob can match beneath it", pat, world.describe(), unjustified),
+                        case: json!({"kind": "rootedfeed", "world": world_json(world), "pattern": pat}),
+                    });
+                }
                 if run.fed != exp {
                     rep.alarm(Alarm {
                         class: None,
@@ -1205,6 +1347,18 @@ pub fn c03(tier: Tier) -> i32 {
                 if let Some(m) = &models[li] {
                     nm.insert(0usize, m);
                 }
+                // the negation consumed directly (its own `next` drives the walk)
+                if let Ok(bare) = execute_bare(&place, base, &stack, &History::new(), wax::walk::LinkBehavior::ReadFile) {
+                    bump(&mut c, "walks", 1);
+                    if let Some(diff) = bare_difference(&run, &bare) {
+                        rep.alarm(Alarm {
+                            class: None,
+                            key: format!("bare {} {:?} {:?}", world.describe(), base, l),
+                            msg: format!("{} over {} in {}: {}", l.describe(), base.describe(), world.describe(), diff),
+                            case: case_json(world, base, &stack, &History::new()),
+                        });
+                    }
+                }
                 let j = judge(world, base, &base_run, &stack, &History::new(), &nm, &run, false);
                 if !j.problems_c03.is_empty() {
                     rep.alarm(Alarm {
@@ -1399,6 +1553,24 @@ pub fn replay_stack(case: &Value, which: &str) -> bool {
         println!("  {}", p);
     }
     let mut bad = !problems.is_empty();
+    if let Ok(bare) = execute_bare(&place, &base, &layers, &history, link) {
+        if let Some(diff) = bare_difference(&run, &bare) {
+            println!("  {}", diff);
+            bad = true;
+        }
+    }
+    if which == "C13" && layers.is_empty() {
+        // first clause: the feed of the glob walk itself
+        if let BaseWalk::Glob(g) = &base {
+            if let Some((exp, unjustified)) = Glob::new(g).ok().and_then(|glob| glob_feed_expectation_justified(&world, &place.abs, &glob, false, follow)) {
+                println!("  traversal pruned by the glob's component programs {:?}: {:?}", Glob::new(g).map(|g| g.verif_walk_component_texts()).unwrap_or_default(), exp);
+                println!("  directories cut by the component programs although the glob can match beneath them: {:?}", unjustified);
+                if run.fed != exp || !unjustified.is_empty() {
+                    bad = true;
+                }
+            }
+        }
+    }
     if which == "C16" && layers.len() > 1 {
         // order independence
         let mut reference: Option<Vec<String>> = None;
